@@ -44,6 +44,76 @@ mod h {
         true
     }
 
+    static mut DROPS: usize = 0;
+    static mut DROPPED: usize = 0;
+    unsafe extern "C" fn count_drop(p: *mut ()) {
+        unsafe {
+            DROPS += 1;
+            DROPPED = p as usize;
+        }
+    }
+    fn mk_dropping(n: usize, vals: [u32; CAP]) -> ErasedList {
+        let mut v = vt();
+        v.drop_fn = Some(count_drop);
+        let l = ErasedList::new(v);
+        {
+            let mut g = l.0.lock().unwrap();
+            g.len = n;
+            g.store = vals;
+            g.fix();
+        }
+        l.0.lock_count.set(0);
+        l
+    }
+    fn model_index(n: usize, v: &[u32; CAP], x: u32) -> Option<usize> {
+        let mut i = 0;
+        while i < CAP {
+            if i < n && v[i] == x {
+                return Some(i);
+            }
+            i += 1;
+        }
+        None
+    }
+
+    /// contains / index agree with the vector model and leave the probe value alone; the `_owned`
+    /// forms (what scripts call: the probe is a temporary the callee must release) give the same
+    /// answer and drop the probe exactly once - after the lookup, one lock taken and released.
+    #[kani::proof]
+    #[kani::unwind(9)]
+    fn c15_k2_contains_and_index() {
+        let n: usize = kani::any();
+        kani::assume(n <= 3);
+        let v: [u32; CAP] = kani::any();
+        let mut x: u32 = kani::any();
+        let a = mk_dropping(n, v);
+        let p = NonNull::from(&mut x).cast::<()>();
+        let want = model_index(n, &v, x);
+        unsafe {
+            DROPS = 0;
+        }
+        let which: u8 = kani::any();
+        kani::assume(which < 4);
+        let (found, idx, owned) = match which {
+            0 => (unsafe { a.contains(p) }, None, false),
+            1 => (unsafe { a.contains_owned(p) }, None, true),
+            2 => {
+                let i = unsafe { a.index(p) };
+                (i.is_some(), i, false)
+            }
+            _ => {
+                let i = unsafe { a.index_owned(p) };
+                (i.is_some(), i, true)
+            }
+        };
+        assert!(found == want.is_some() && (which < 2 || idx == want), "OBL:C15.contains_index.agree_with_the_vector_model_first_match");
+        let drops = unsafe { DROPS };
+        assert!(if owned { drops == 1 && unsafe { DROPPED } == p.as_ptr() as usize } else { drops == 0 }, "OBL:C15.contains_index.owned_forms_drop_the_probe_exactly_once_the_others_never");
+        assert!(a.0.lock_count.get() == 1 && !a.0.locked.get(), "OBL:C15.contains_index.one_lock_taken_and_released");
+        kani::cover!(which == 3 && want == Some(1), "COV:C15.contains_index.index_owned_second_element_reached");
+        kani::cover!(which == 1 && want.is_none(), "COV:C15.contains_index.contains_owned_absent_reached");
+    }
+
     /// List<T> == List<T>: terminates (never re-locks a held mutex), locks each distinct operand
     /// exactly once, releases both, and the answer is element-wise equality.
     #[kani::proof]
